@@ -192,7 +192,8 @@ def rgfa(draw, min_chroms=1, max_chroms=2, max_elements=5, max_ln=9, min_element
          max_ears=3, cycles=False):
     rnd = random.Random(draw(st.integers(0, 2**30)))
     start = draw(st.sampled_from([0, 0, 6, 95, 996]))
-    b = _Builder(draw, rnd, ["s", draw(st.sampled_from(["utg", "n", "s0"]))], start, max_ln)
+    # segment names are arbitrary non-blank strings: also ids with '.', '-' and '#'
+    b = _Builder(draw, rnd, ["s", draw(st.sampled_from(["utg", "n", "s0", "s1.", "ctg-", "n#"]))], start, max_ln)
     b.cycles = cycles
     nchrom = draw(st.integers(min_chroms, max_chroms))
     names = draw(st.permutations(["chr1", "chr2", "chrX", "chr10_alt"]))[:nchrom]
